@@ -296,7 +296,7 @@ theorem stepD_refines_partial {c : Module.Parts α} (S : DftOpsSound c nn) (wf :
     · simp only [astepD, cstepD] at hv ⊢
       exact clear d _ _ v az hv
   | vmpDD d x m =>
-    obtain ⟨P, M, hP, hm, hb⟩ := hpre
+    obtain ⟨-, P, M, hP, hm, hb⟩ := hpre
     refine ⟨r1, fun v Q hv => ?_, r3, r4, fun v az hv => ?_⟩
     · by_cases e : v = d
       · subst e
